@@ -234,7 +234,7 @@ func (f *Frame) execInstr(b *ssa.BasicBlock, in ssa.Instruction, o *blockOut) bo
 		v.Typ = x.Type()
 		f.env[x] = v
 	case *ssa.Convert:
-		f.env[x] = f.convert(x)
+		f.env[x] = f.convert(x, st)
 	case *ssa.MultiConvert:
 		f.env[x] = vc.freshVal(x.Type(), "multiconvert")
 	case *ssa.SliceToArrayPointer:
@@ -490,6 +490,11 @@ func (vc *VC) markAlloc(st *State, r Term, t types.Type) {
 			}
 		}
 	}
+}
+
+// isAllocated: r is in the ghost allocation set of st.
+func (vc *VC) isAllocated(st *State, r Term) Term {
+	return Select(vc.heapGet(st, "G.alloc", ArrSort(SInt, SBool)), r)
 }
 
 func (vc *VC) zeroElems(st *State, arr Term, et types.Type) {
@@ -872,7 +877,7 @@ func (vc *VC) simpSub(a, b Term) Term {
 	return Sub(a, b)
 }
 
-func (f *Frame) convert(x *ssa.Convert) Val {
+func (f *Frame) convert(x *ssa.Convert, st *State) Val {
 	vc := f.vc
 	v := f.val(x.X)
 	from, to := x.X.Type(), x.Type()
@@ -893,7 +898,16 @@ func (f *Frame) convert(x *ssa.Convert) Val {
 		// []byte(s): fresh array of the same length
 		arr := vc.newRef("bytes")
 		l := vc.strLen(v.T)
-		vc.decls.Fun("gstr.ofbytes", []Sort{ArrSort(SInt, SInt), SInt, SInt}, SStr)
+		if sl, ok := to.Underlying().(*types.Slice); ok && kindOf(sl.Elem()) == KInt {
+			if b, ok := sl.Elem().Underlying().(*types.Basic); ok && b.Kind() == types.Uint8 {
+				// the new array holds the bytes of the string: gstr.bytes(s)
+				vc.markAlloc(st, arr, nil)
+				vc.decls.Fun("gstr.bytes", []Sort{SStr}, ArrSort(SInt, SInt))
+				name := "Elem." + typeKey(sl.Elem())
+				A := vc.heapGet(st, name, ArrSort(SInt, ArrSort(SInt, SInt)))
+				vc.heapSet(st, name, vc.nameTerm(Store(A, arr, App(ArrSort(SInt, SInt), "gstr.bytes", v.T)), smtName(name)))
+			}
+		}
 		return Val{K: KSlice, T: arr, Off: IntLit(0), Len: l, Cap: l, Typ: to}
 	case fk == KSlice && tk == KStr:
 		r := vc.freshVal(to, "string")
